@@ -80,7 +80,10 @@ TRUSTED = [
     "inspect.signature (resolver signatures enter the model as data dumped with it)",
     "re._parser (character classes of VALID_NAME_RE)",
     "the resolver-signature clauses (Lean `ResolverCompatible` / `ResolverViol`, Python `spec_resolver_rules_data`) are tied to Python's "
-    "call binding by REALLY CALLING the generated callables with every admissible keyword set (stream K and every code-built schema), not by a Lean proof",
+    "call binding by REALLY CALLING the generated callables with every admissible keyword set (stream K and every code-built schema); since "
+    "Props.C13.compatible_iff_binds the clause is PROVED equivalent to `bindOk` (an explicit model of Python's call binding, Spec/SchemaValidSpec.lean) "
+    "binding every admissible call, and `bindOk` is compared with CPython on 576 signatures x 16 keyword sets in every run (stream N): what stays trusted "
+    "is that CPython's binding on other signatures follows the same three rules",
     "message attribution: templates read from the source (static: literals reaching add_error through %, .format, local / "
     "module / class constants, literal sequences iterated by a for); when a message expression is not recognised (evidence key "
     "`extraction: dynamic`) the templates are LEARNED by running the real validator on 2x30 single-violation schemas "
@@ -3094,6 +3097,64 @@ def stream_address_reuse(ctx):
     ctx.extra["address_reuse_collisions"] = reached
 
 
+# ---- N: the call-binding model (Lean `bindOk`) against CPython ---------------------------------------------------------
+
+def stream_call_binding(ctx, batch):
+    """`Props.C13.compatible_iff_binds` says that the rule accepts a signature exactly when `bindOk` (an explicit model
+    of Python's call binding) binds every call the executor can make. Here `bindOk` itself is compared with CPython:
+    bounded-exhaustive signatures (0-3 positional-only parameters, the first one named `c`; 0-3 leading
+    positional-or-keyword parameters `root, ctx, info`; `a` absent / required / defaulted; `*args`; keyword-only `b`
+    absent / required / defaulted; `**kw`) x every keyword set over {a, b, c, root}: the callable is REALLY CALLED as
+    `fn(1, 2, 3, **kw)`; it binds iff no TypeError. 576 signatures x 16 keyword sets in every run, no PRNG."""
+    import itertools as it
+    names = ["a", "b", "c", "root"]
+    ksets = [list(x) for k in range(len(names) + 1) for x in it.combinations(names, k)]
+    done = 0
+    for i, j, a, vp, b, vk in it.product(range(4), range(4), range(3), range(2), range(3), range(2)):
+        parts = []
+        if i:
+            parts += ["c"] + ["p%d" % x for x in range(1, i)] + ["/"]
+        parts += ["root", "ctx", "info"][:j]
+        if a:
+            parts.append("a" if a == 1 else "a=None")
+        if vp:
+            parts.append("*args")
+        elif b:
+            parts.append("*")
+        if b:
+            parts.append("b" if b == 1 else "b=None")
+        if vk:
+            parts.append("**kw")
+        try:
+            fn = eval("lambda %s: None" % ", ".join(parts), {})
+        except SyntaxError:
+            ctx.stat("call-binding:signature-not-python")
+            continue
+        real = []
+        for ks in ksets:
+            try:
+                fn(1, 2, 3, **{k: 1 for k in ks})
+                real.append(True)
+            except TypeError:
+                real.append(False)
+        done += 1
+        ctx.count(len(ksets))
+        shape = "po%d-pk%d-a%d-vp%d-b%d-vk%d" % (i, j, a, vp, b, vk)
+        ctx.nontrivial(("call-binding", shape))
+        ctx.stat("call-binding:binds-%d-of-16" % sum(real))
+
+        def cont(ans, real=real, shape=shape, sig=", ".join(parts)):
+            got = ans.get("binds")
+            if got != real:
+                k = next((x for x in range(len(real)) if got is None or x >= len(got) or got[x] != real[x]), 0)
+                ctx.fail("corr:call-binding:%s:kw=%s" % (shape, "+".join(ksets[k]) or "none"),
+                         "the call-binding model and CPython differ on `(lambda %s: None)(1, 2, 3, **{%s})`" % (sig, ", ".join(ksets[k])),
+                         {"how": "call-binding", "signature": sig, "kw": ksets[k], "cpython_binds": real[k],
+                          "model_binds": None if got is None or k >= len(got) else got[k]}, kind="correspondence")
+        batch.add({"op": "bind", "resolver": canon_schema.dump_resolver(fn), "kws": [{"k": ks} for ks in ksets]}, cont)
+    ctx.extra["call_binding_signatures"] = done
+
+
 # ---------------------------------------------------------------------------------------------
 
 def corpus_cases(ctx, batch):
@@ -3135,6 +3196,7 @@ def run(ctx):
     stream_valid_and_injected(ctx, batch)
     stream_structural_setters(ctx, batch)
     stream_address_reuse(ctx)
+    stream_call_binding(ctx, batch)
     batch.flush()
     ctx.extra.pop("_shrunk", None)
     ctx.extra["extraction"] = attribution_mode()
